@@ -1,12 +1,11 @@
 """Generates the CrossHair condition functions for C20 (CrossHair reads contracts from source text)."""
-import math
 
 HEAD = 'from harness import C20_gather as H\n'
 
 COND = '''
 def {NAME}(perm: int, {ARGS}) -> bool:
     """
-    pre: 0 <= perm < {NPERM}
+    pre: {LO} <= perm < {HI}
     pre: {PRE}
     post: _
     """
@@ -16,7 +15,7 @@ def {NAME}(perm: int, {ARGS}) -> bool:
 TWIN = '''
 def {NAME}(perm: int, {ARGS}) -> bool:
     """
-    pre: 0 <= perm < {NPERM}
+    pre: {LO} <= perm < {HI}
     pre: {PRE}
     post: _
     """
@@ -25,32 +24,33 @@ def {NAME}(perm: int, {ARGS}) -> bool:
 '''
 
 
-def cond_name(mode, holder, P, n, exc):
-    return f'c_{mode}_{"h" if holder else "n"}_{P}_{n}_x{exc}'
+def cond_name(mode, holder, P, n, lo, hi, exc):
+    return f'c_{mode}_{"h" if holder else "n"}_{P}_{n}_p{lo}_{hi}_x{exc}'
 
 
-def twin_name(mode, holder, P, n):
-    return f't_{mode}_{"h" if holder else "n"}_{P}_{n}'
+def twin_name(mode, holder, P, n, lo, hi):
+    return f't_{mode}_{"h" if holder else "n"}_{P}_{n}_p{lo}_{hi}'
 
 
-def _kw(mode, holder, P, n, dmax):
+def _kw(mode, holder, P, n, lo, hi, dmax):
     o = [f'o{i}' for i in range(n)]
-    d = [f'd{i}' for i in range(n)]
+    d = [f'd{i}' for i in range(n - 1)]
     v = [f'v{i}' for i in range(n)]
     pre = ' and '.join([f'0 <= {x} <= 1' for x in o] + [f'0 <= {x} <= {dmax}' for x in d])
-    return dict(ARGS=', '.join(f'{x}: int' for x in o + d + v), PRE=pre, NPERM=math.factorial(n), MODE=mode,
+    return dict(ARGS=', '.join(f'{x}: int' for x in o + d + v), PRE=pre, LO=lo, HI=hi, MODE=mode,
                 HOLDER=holder, P=P, N=n, OUTS=', '.join(o), DRAINS=', '.join(d), VALS=', '.join(v))
 
 
 def argnames(n):
-    return ['perm'] + [f'o{i}' for i in range(n)] + [f'd{i}' for i in range(n)] + [f'v{i}' for i in range(n)]
+    return ['perm'] + [f'o{i}' for i in range(n)] + [f'd{i}' for i in range(n - 1)] + [f'v{i}' for i in range(n)]
 
 
 def source(conds, twins, dmax):
-    """conds: list of (mode, holder, P, n, excused_mask); twins: list of (mode, holder, P, n)"""
+    """conds: list of (mode, holder, P, n, lo, hi, excused_mask); twins: list of (mode, holder, P, n, lo, hi)"""
     out = [HEAD]
-    for mode, holder, P, n, exc in conds:
-        out.append(COND.format(NAME=cond_name(mode, holder, P, n, exc), EXC=exc, **_kw(mode, holder, P, n, dmax)))
-    for mode, holder, P, n in twins:
-        out.append(TWIN.format(NAME=twin_name(mode, holder, P, n), **_kw(mode, holder, P, n, dmax)))
+    for mode, holder, P, n, lo, hi, exc in conds:
+        out.append(COND.format(NAME=cond_name(mode, holder, P, n, lo, hi, exc), EXC=exc,
+                               **_kw(mode, holder, P, n, lo, hi, dmax)))
+    for mode, holder, P, n, lo, hi in twins:
+        out.append(TWIN.format(NAME=twin_name(mode, holder, P, n, lo, hi), **_kw(mode, holder, P, n, lo, hi, dmax)))
     return '\n'.join(out)
